@@ -4,3 +4,4 @@ CONSTANTS
   MaxVals = 6
   MaxSteps = 16
   MaxDepth = 2
+  EmitAll = FALSE
